@@ -387,7 +387,7 @@ pub fn selfcheck() -> Result<String, String> {
 
 pub fn phases(cfg: &Cfg) -> Vec<Box<dyn Phase>> {
     vec![Box::new(Pairs {
-        n: cfg.n(40_000, 2_000_000),
+        n: cfg.n(100_000, 2_000_000),
         recent: Vec::new(),
     })]
 }
